@@ -197,6 +197,7 @@ type Runtime struct {
 	hash *maphash.Hash
 
 	jobQueue []func()
+	leaving  bool // the job queue is being run by leave()
 
 	promiseRejectionTracker PromiseRejectionTracker
 	asyncContextTracker     AsyncContextTracker
@@ -2886,6 +2887,16 @@ func (r *Runtime) getHash() *maphash.Hash {
 
 // called when the top level function returns normally (i.e. control is passed outside the Runtime).
 func (r *Runtime) leave() {
+	if r.leaving {
+		// A job called a native function which in turn made a call that looks like a top level one (the
+		// call stack is empty while jobs run). The jobs it has queued will be run, in order, by the loop
+		// that is already running.
+		return
+	}
+	r.leaving = true
+	defer func() {
+		r.leaving = false
+	}()
 	var jobs []func()
 	for len(r.jobQueue) > 0 {
 		jobs, r.jobQueue = r.jobQueue, jobs[:0]
@@ -2899,6 +2910,10 @@ func (r *Runtime) leave() {
 
 // called when the top level function returns (i.e. control is passed outside the Runtime) but it was due to an interrupt
 func (r *Runtime) leaveAbrupt() {
+	if r.leaving {
+		// not the top level call, see leave(): let the interrupt propagate to it
+		return
+	}
 	r.jobQueue = nil
 	r.ClearInterrupt()
 }
